@@ -1021,10 +1021,33 @@ func runCase(o *hx.Out, ev *env, d caseDesc, origin string) {
 	r.srcCache = observeCache(eng)
 	r.nextStem = tsm1.DefaultFormatFileName(eng.FileStore.CurrentGeneration()+1, 1)
 	r.srcBefore, _ = readShard(ev.src, id)
+	var busyRelease chan struct{}
+	var busySnapDone chan error
 	if d.Mode == "busy" {
-		// another snapshot is in flight for the whole backup: Cache.Snapshot marks it
-		if _, err := eng.Cache.Snapshot(); err == nil {
-			r.busy = true
+		// a background cache snapshot is in flight (its file written, not yet installed in the
+		// FileStore) when the backup is requested: WriteSnapshot is paused at the verifPoint
+		// hook on its own goroutine and released once the backup has been seen waiting
+		paused := make(chan struct{})
+		busyRelease = make(chan struct{})
+		busySnapDone = make(chan error, 1)
+		fired := false
+		tsm1.SetVerifPoint(func(name string, args ...interface{}) {
+			if name == "snapshot.written" && !fired {
+				fired = true
+				close(paused)
+				<-busyRelease
+			}
+		})
+		go func() { busySnapDone <- eng.WriteSnapshot() }()
+		select {
+		case <-paused:
+			o.Count("busy:snapshot-in-flight")
+		case e := <-busySnapDone:
+			// nothing in the cache: no snapshot in flight
+			o.Count("busy:empty-cache")
+			busySnapDone <- e
+			close(busyRelease)
+			busyRelease = nil
 		}
 	}
 
@@ -1072,6 +1095,33 @@ func runCase(o *hx.Out, ev *env, d caseDesc, origin string) {
 			}
 			if d.Mode == "export" {
 				berr = ev.src.ExportShard(id, time.Unix(0, d.ExLo), time.Unix(0, d.ExHi), &archive)
+			} else if busyRelease != nil {
+				// Engine.snapshotMu must hold the backup's own snapshot back until the one in
+				// flight is committed
+				bdone := make(chan error, 1)
+				go func() {
+					defer func() {
+						if e := recover(); e != nil {
+							bdone <- fmt.Errorf("panic: %v", e)
+						}
+					}()
+					bdone <- ev.src.BackupShard(id, since, &archive)
+				}()
+				select {
+				case berr = <-bdone:
+					o.Count("busy:backup-ran-inside-snapshot")
+					r.busy = true
+					close(busyRelease)
+				case <-time.After(150 * time.Millisecond):
+					o.Count("busy:backup-held-back")
+					close(busyRelease)
+					select {
+					case berr = <-bdone:
+					case <-time.After(60 * time.Second):
+						panic("a backup held back by an in-flight cache snapshot never completed after the snapshot was committed")
+					}
+				}
+				busyRelease = nil
 			} else {
 				berr = ev.src.BackupShard(id, since, &archive)
 			}
@@ -1085,7 +1135,13 @@ func runCase(o *hx.Out, ev *env, d caseDesc, origin string) {
 		}
 	}
 	if d.Mode == "busy" {
-		eng.Cache.ClearSnapshot(false)
+		tsm1.SetVerifPoint(nil)
+		if busyRelease != nil {
+			close(busyRelease)
+		}
+		if e := <-busySnapDone; e != nil {
+			panic(fmt.Sprintf("background snapshot failed: %v", e))
+		}
 	}
 	r.backupErr = berr != nil
 	if berr != nil {
@@ -1813,6 +1869,10 @@ func genCase(r *hx.Rand, i int) caseDesc {
 			d.Extra = 1 + r.Intn(3)
 		} else if r.Chance(12) {
 			d.SnapOff, d.During = true, nil
+		} else if r.Chance(30) {
+			// the backup is requested while a background cache snapshot is in flight
+			d.Mode, d.During = "busy", nil
+			d.Ops = append(d.Ops, op{Kind: "write", Pts: genPts(r, 1+r.Intn(3), 20)})
 		}
 	case m < 5:
 		d.Mode = "import"
